@@ -156,6 +156,41 @@ theorem C04_exact_merged_layers {l : List Entry} (hl : ValidLedger l) :
   rw [e2, addVec_zeros_right (seats l) _ hlen] at hx
   exact hx
 
+/-- for callers (the game model, C02): conservation and the exact payout need only that the
+    ledger is fresh, commitments are non-negative and some contesting seat holds the largest
+    commitment of the table (`Covered`, implied by `Valid`) -/
+theorem conservation_of_covered {l : List Entry} (hz : ∀ p ∈ l, p.reward = 0)
+    (hc : Covered (seats l)) :
+    sumInt ((settle l).map (·.reward)) = sumInt (l.map (·.risked)) ∧
+    rewards l = payout (seats l) ∧ seats (settle l) = seats l := by
+  have ⟨hI, hall⟩ := run_spec_covered hz hc
+  refine ⟨?_, ?_, hI.seats_eq⟩
+  · have ht := hI.total
+    have e : sumInt (l.map (·.risked)) = sumInt ((seats l).map (·.risked)) :=
+      sum_over_seats l (·.risked)
+    rw [e]
+    show sumInt ((run l).payouts.map (·.reward)) = _
+    rw [ht]
+    unfold potSum
+    apply sumInt_map_congr
+    intro s hs
+    have h1 := hall s hs
+    have h2 := hc.1 s hs
+    omega
+  · have hx := hI.exact
+    have e1 : after (run l).distributing (layers (seats l)) = [] := by
+      apply List.filter_eq_nil_iff.2
+      intro ab hab
+      have := layer_top_le (seats l) hall hab
+      simp; omega
+    have hlen : ((run l).payouts.map (·.reward)).length = (seats l).length := by
+      have := congrArg List.length hI.seats_eq
+      simpa [seats] using this
+    rw [e1] at hx
+    have e2 : payoutOf (seats l) [] = (seats l).map (fun _ => (0 : Int)) := rfl
+    rw [e2, addVec_zeros_right (seats l) _ hlen] at hx
+    exact hx
+
 /-! ### the specification is the intended one (sanity of `levels`, `floorDiv`, `ceilDiv`) -/
 
 /-- the levels are exactly the positive commitments … -/
